@@ -258,6 +258,11 @@ def r3_literals(run, F):
     run.ob("R3-LITERAL-SPELLING", "SignedIntegerLiteral", fmt_of("SignedIntegerLiteral") == ["{}"], F.where(e), "signed integers print in decimal: %s" % fmt_of("SignedIntegerLiteral"))
     run.ob("R3-LITERAL-SPELLING", "BitIntegerLiteral", fmt_of("BitIntegerLiteral") == ["{:#x}"], F.where(e), "bit integers print as 0x..: %s" % fmt_of("BitIntegerLiteral"))
     run.ob("R3-LITERAL-SPELLING", "BooleanLiteral", fmt_of("BooleanLiteral") == ["{}"], F.where(e), "booleans print as true/false")
+    # the operator and grouping arms print their own tokens and nothing else: parentheses exist in the tree as Parenthesized nodes, so a
+    # template that adds some (for prettiness, `a - (-3)`) prints a node the first tree does not have
+    for variant, want in (("Binary", ["{} {} {}"]), ("Unary", ["{}{}"]), ("Parenthesized", ["({})"]), ("TypeCast", ["{} as {}"]), ("LengthOfArray", ["|{}|"]), ("SizeOf", ["|:{}|"])):
+        got = fmt_of(variant)
+        run.ob("R3-LITERAL-SPELLING", "%s template" % variant, got == want, F.where(e), "%s prints as %s, one template on every path: found %s" % (variant, want, got))
     sarm = hirq.arm_for(m, "Expression::StringLiteral")
     cs = [hirq.callee(c) or "" for c in hirq.calls(sarm[0]["body"])] if sarm else []
     A = lexq.LexTables(F, "alpha")
